@@ -131,3 +131,17 @@ Qed.
     determine the list of rule hashes *)
 Lemma explicit_fixed_width_ok : explicit_fixed_width = Some true.
 Proof. vm_compute. reflexivity. Qed.
+
+(** ---- C13 ---- *)
+From Memento Require Import Version.VCache Version.VCacheProofs.
+
+Lemma km_identity_ok : km_identity = Some true.
+Proof. vm_compute. reflexivity. Qed.
+Lemma ruleless_instance_recomputes_ok : ruleless_instance_recomputes = Some true.
+Proof. vm_compute. reflexivity. Qed.
+
+Definition current_ki : bool := match km_identity with Some b => b | None => false end.
+
+Theorem current_source_cache_coherent : forall K es st, J K st -> admissible K st es ->
+  Forall (fun r => snd (fst r) = Some (snd r)) (vrun current_ki K st es).
+Proof. unfold current_ki. rewrite km_identity_ok. exact cache_coherent. Qed.
